@@ -5,6 +5,7 @@ package poll
 import (
 	"github.com/prometheus/client_golang/prometheus"
 	"github.com/resonatehq/resonate/internal/aio"
+	"github.com/resonatehq/resonate/internal/metrics"
 )
 
 // Verification hook (build tag `verif`): a single-goroutine driver of the connection registry and of
@@ -62,3 +63,60 @@ func (c *VerifConn) Drain() (bodies [][]byte, closed bool) {
 		}
 	}
 }
+
+// VerifLoop runs the real PollWorker.Start loop on its own goroutine over unbuffered, harness-owned channels:
+// every Connect / Disconnect / Send is a rendezvous with the worker, so a harness can serialise operations
+// (including closing the send queue, the shutdown branch of the loop) and observe the result.
+type VerifLoop struct {
+	w          *PollWorker
+	sq         chan *aio.Message
+	connect    chan *connection
+	disconnect chan *connection
+	done       chan struct{}
+}
+
+func NewVerifLoop(max int) *VerifLoop {
+	m := metrics.New(prometheus.NewRegistry())
+	l := &VerifLoop{
+		sq:         make(chan *aio.Message),
+		connect:    make(chan *connection),
+		disconnect: make(chan *connection),
+		done:       make(chan struct{}),
+	}
+	l.w = &PollWorker{
+		sq:         l.sq,
+		metrics:    m,
+		counter:    prometheus.NewGauge(prometheus.GaugeOpts{Name: "verif_poll_loop_connections"}),
+		connect:    l.connect,
+		disconnect: l.disconnect,
+		connections: connections{
+			max:   max,
+			cnt:   prometheus.NewGauge(prometheus.GaugeOpts{Name: "verif_poll_loop_cnt"}),
+			conns: map[string][]*connection{},
+		},
+	}
+	go func() {
+		defer close(l.done)
+		l.w.Start()
+	}()
+	return l
+}
+
+func (l *VerifLoop) NewConn(group string, id string, buffer int) *VerifConn {
+	return &VerifConn{c: &connection{group: group, id: id, ch: make(chan []byte, buffer)}}
+}
+func (l *VerifLoop) Connect(c *VerifConn)    { l.connect <- c.c }
+func (l *VerifLoop) Disconnect(c *VerifConn) { l.disconnect <- c.c }
+func (l *VerifLoop) Send(m *aio.Message)     { l.sq <- m }
+func (l *VerifLoop) CloseSend()              { close(l.sq) }
+
+// Stop ends the loop the way Poll.Stop does (the connect / disconnect channels are closed) and waits for it.
+func (l *VerifLoop) Stop() {
+	close(l.connect)
+	close(l.disconnect)
+	<-l.done
+}
+
+// Len reads the registry's connection count; call it only after a later rendezvous (e.g. a Disconnect of a
+// connection that was never registered), which orders the worker's writes before the read.
+func (l *VerifLoop) Len() int { return l.w.connections.len }
